@@ -52,6 +52,20 @@ Qed.
 Lemma rule_based_Forall (P : row -> Prop) rows :
   (forall r, P r <-> P (norxn r)) -> Forall P rows -> Forall P (rule_based rows).
 Proof. intros H. apply Forall_norxn; auto. symmetry. apply rule_based_norxn. Qed.
+Lemma restore_norxn a b : norxn (restore OR a b) = norxn b.
+Proof. unfold Pipeline.restore. destruct (pp_fires OR a && negb (balanced_rxn OR (rxn b))); [apply norxn_set_rxn|reflexivity]. Qed.
+Lemma map2_restore_Forall (P : row -> Prop) l1 : (forall r, P r <-> P (norxn r)) -> forall l2, Forall P l2 -> Forall P (map2 (restore OR) l1 l2).
+Proof.
+  intros H. induction l1 as [|a t IH]; intros l2 F; simpl; [constructor|]. destruct l2 as [|b u]; [constructor|].
+  inversion F; subst. constructor; auto. apply (proj2 (H _)). rewrite restore_norxn. now apply (proj1 (H _)).
+Qed.
+Lemma rule_based_length rows : length (rule_based rows) = length rows.
+Proof. rewrite <- (map_length norxn (rule_based rows)), rule_based_norxn. apply map_length. Qed.
+Lemma map2_restore_obs {B} (g : row -> B) l1 : (forall r, g r = g (norxn r)) -> forall l2, length l1 = length l2 -> map g (map2 (restore OR) l1 l2) = map g l2.
+Proof.
+  intros H. induction l1 as [|a t IH]; intros [|b u] L; simpl in *; try discriminate; auto.
+  rewrite (H (restore OR a b)), restore_norxn, <- H. f_equal. apply IH. congruence.
+Qed.
 Lemma Forall_map_stage (P Q : row -> Prop) (f : row -> row) l :
   (forall r, P r -> Q (f r)) -> Forall P l -> Forall Q (map f l).
 Proof. intros H F. apply Forall_forall. intros y I. apply in_map_iff in I as [x [<- Ix]].
@@ -143,6 +157,7 @@ Lemma stages_Q rows0 : Forall Q (fst (stages_before_conf rows0)).
 Proof.
   unfold Pipeline.stages_before_conf. simpl.
   eapply Forall_map_stage; [intros r; apply Q_final|].
+  apply map2_restore_Forall; [apply A_norxn|].
   apply rule_based_Forall; [apply A_norxn|].
   eapply Forall_map_stage; [apply A_post_process|].
   eapply Forall_map_stage; [apply A_validate|].
@@ -237,6 +252,7 @@ Lemma stages_methods rows0 : Forall methods_ok rows0 -> Forall methods_ok (fst (
 Proof.
   intros H. unfold Pipeline.stages_before_conf. simpl.
   eapply Forall_map_stage; [intros r; apply methods_validate; auto|].
+  apply map2_restore_Forall; [apply methods_norxn|].
   apply rule_based_Forall; [apply methods_norxn|].
   eapply Forall_map_stage; [apply methods_post_process|].
   eapply Forall_map_stage; [intros r; apply methods_validate; auto|].
@@ -536,8 +552,10 @@ Proof.
   set (r5 := map mcs_impute r4) in *.
   set (r6 := map (validate M_MCS true false None) r5) in *.
   set (r7 := map post_process r6) in *.
-  set (r8 := rule_based r7) in *.
+  set (r8a := rule_based r7) in *.
+  set (r8 := map2 (restore OR) r6 r8a) in *.
   set (r9 := map (validate M_MCS true true (Some FINAL_MSG)) r8) in *.
+  assert (L68 : length r6 = length r8a) by (unfold r8a, r7; now rewrite rule_based_length, map_length).
   destruct (all_done (map (conf_one t tmsg) r9)) as [r10|w] eqn:AD; [|discriminate].
   inversion H; subst rows st; clear H. cbn [reaction_cnt balanced_cnt confident_cnt mcs_applied rb_solved rb_applied mcs_solved].
   assert (Q1 : Forall pre_mcs r1) by (eapply Forall_map_stage; [intros r; apply pre_mcs_validate; auto | apply number_pre_mcs]).
@@ -550,7 +568,8 @@ Proof.
   assert (M5 : Forall methods_ok r5) by (eapply Forall_map_stage; [apply methods_mcs_impute | exact M4]).
   assert (M6 : Forall methods_ok r6) by (eapply Forall_map_stage; [intros r; apply methods_validate; auto | exact M5]).
   assert (M7 : Forall methods_ok r7) by (eapply Forall_map_stage; [apply methods_post_process | exact M6]).
-  assert (M8 : Forall methods_ok r8) by (apply rule_based_Forall; [apply methods_norxn | exact M7]).
+  assert (M8a : Forall methods_ok r8a) by (apply rule_based_Forall; [apply methods_norxn | exact M7]).
+  assert (M8 : Forall methods_ok r8) by (apply map2_restore_Forall; [apply methods_norxn | exact M8a]).
   assert (M9 : Forall methods_ok r9) by (eapply Forall_map_stage; [intros r; apply methods_validate; auto | exact M8]).
   assert (S10 : map sby r10 = map sby r9).
   { eapply all_done_obs; [exact AD|]. intros x y Ix Fx. rewrite Forall_forall in M9.
@@ -560,7 +579,8 @@ Proof.
   (* input-balanced rows: fixed from the first pass on *)
   assert (I91 : map is_input_row r9 = map is_input_row r1).
   { unfold r9. rewrite (map_obs_stage is_input_row _ methods_ok r8 M8) by (intros r; apply sby_validate_other; discriminate).
-    unfold r8. rewrite map_obs_rule_based by (intros r; destruct r; reflexivity).
+    unfold r8. rewrite (map2_restore_obs is_input_row r6 (fun r => ltac:(destruct r; reflexivity)) r8a L68).
+    unfold r8a. rewrite map_obs_rule_based by (intros r; destruct r; reflexivity).
     unfold r7. rewrite (map_obs_stage is_input_row _ methods_ok r6 M6) by (intros r _; unfold is_input_row; now rewrite sby_post_process).
     unfold r6. rewrite (map_obs_stage is_input_row _ methods_ok r5 M5) by (intros r; apply sby_validate_other; discriminate).
     unfold r5. rewrite (map_obs_stage is_input_row _ methods_ok r4 M4) by (intros r _; unfold is_input_row; now rewrite sby_mcs_impute).
@@ -569,7 +589,8 @@ Proof.
     unfold r2. rewrite map_obs_rule_based by (intros r; destruct r; reflexivity). reflexivity. }
   assert (E93 : map early r9 = map early r3).
   { unfold r9. rewrite (map_obs_stage early _ methods_ok r8 M8) by (intros r; apply early_validate_mcs).
-    unfold r8. rewrite map_obs_rule_based by (intros r; destruct r; reflexivity).
+    unfold r8. rewrite (map2_restore_obs early r6 (fun r => ltac:(destruct r; reflexivity)) r8a L68).
+    unfold r8a. rewrite map_obs_rule_based by (intros r; destruct r; reflexivity).
     unfold r7. rewrite (map_obs_stage early _ methods_ok r6 M6) by (intros r _; unfold early, is_input_row, is_rb_row; now rewrite sby_post_process).
     unfold r6. rewrite (map_obs_stage early _ methods_ok r5 M5) by (intros r; apply early_validate_mcs).
     unfold r5. rewrite (map_obs_stage early _ methods_ok r4 M4) by (intros r _; unfold early, is_input_row, is_rb_row; now rewrite sby_mcs_impute).
